@@ -132,9 +132,9 @@ TD_ASSUME = COMMON_K_ASSUME + [
 ]
 p = prop("C15",
          functions=["TDigest::{quantile,cdf,min,max,count}", "TDigestInner::{quantile,cdf,interpolate,count,merge(early return)}"],
-         bounds={"quick": "1 and 2 centroids, weights 1..4, means/min/max integers in -8..8, q on the 1/16 grid, x on the half-integer grid",
+         bounds={"quick": "1 and 2 centroids, weights 1..4, means/min/max integers in -8..8, q on the 1/16 grid, x on the half-integer grid; plus interior interpolation between two singleton centroids at ARBITRARY finite f64 positions for q in {3/8, 4/8, 5/8}",
                  "thorough": "adds 3 centroids"},
-         outside=["more than 3 centroids", "non-integer means / weights outside 1..4", "scale functions (read path does not use them)"],
+         outside=["more than 3 centroids", "non-integer means / weights outside 1..4 (except the two-singleton arbitrary-f64 harness)", "scale functions (read path does not use them)"],
          assumptions=TD_ASSUME)
 for n, tier in (("n1", "quick"), ("n2", "quick"), ("n3", "thorough")):
     p["units"] += [
